@@ -49,11 +49,20 @@ func (f *Cond) Call(s *slip.Scope, args slip.List, depth int) (result slip.Objec
 		if !ok || len(clause) == 0 {
 			slip.TypePanic(s, depth, "clause", a, "list")
 		}
-		if slip.EvalArg(s, clause, 0, d2) == nil {
+		test := slip.EvalArg(s, clause, 0, d2)
+		switch test.(type) {
+		case *slip.ReturnResult, *GoTo:
+			return test
+		}
+		if test == nil {
 			continue
 		}
 		for i := 1; i < len(clause); i++ {
 			result = slip.EvalArg(s, clause, i, d2)
+			switch result.(type) {
+			case *slip.ReturnResult, *GoTo:
+				return result
+			}
 		}
 		break
 	}
